@@ -6,6 +6,7 @@ import (
 	"errors"
 	"strings"
 
+	"github.com/aergoio/aergo/v2/chain"
 	"github.com/aergoio/aergo/v2/consensus"
 	"github.com/aergoio/aergo/v2/types"
 	vf "github.com/aergoio/aergo/v2/zzvf"
@@ -348,4 +349,93 @@ func vfQuorumCheck(n int, lastIdx uint64, reach string, mkProgress func(i int) r
 	// a node that is not an initialised raft member refuses everything
 	rs.node = &vfNode{}
 	vf.Assert(cl.isEnableChangeMembership(&cc) == ErrRaftStatusEmpty, "C16.e.uninit")
+}
+
+// ---- C16.c: the consensus library is handed back the log it acknowledged ------------------------------------------
+
+// VF_C16_c: a log of L entries (kinds block / empty / conf-change in rotation, symbolic terms, hashes, payloads) is
+// written with the real ChainDB.WriteRaftEntry together with identity and hard state; after a restart the real
+// WalDB.ReadAll(snapshot) — convertWalToRaft per entry — returns the entries snapIdx+1..L in order with their terms,
+// raft entry types and payloads (block entries: the stored block), or refuses a log whose term is below the snapshot's.
+func VF_C16_c() {
+	maxL := vf.Param("maxL", 3)
+	L := vf.Choice("L", maxL+1)
+	snapIdx := vf.Choice("snapIdx", L+1)
+	kv := vf.NewKV()
+	cdb := chain.VFChainDBOn(kv)
+	ents := make([]*consensus.WalEntry, L)
+	blocks := make([]*types.Block, L)
+	ccs := make([]*raftpb.ConfChange, L)
+	var hashes [][]byte
+	for i := 0; i < L; i++ {
+		e := &consensus.WalEntry{Type: consensus.EntryType(i % 3), Term: vf.U64("term"), Index: uint64(i + 1)}
+		switch e.Type {
+		case consensus.EntryBlock:
+			h := vf.Bytes("hash", 4)
+			for _, o := range hashes {
+				vf.Assume(!bytes.Equal(h, o))
+			}
+			hashes = append(hashes, h)
+			blocks[i] = &types.Block{Hash: h, Header: &types.BlockHeader{BlockNo: vf.U64("blockNo")}, Body: &types.BlockBody{}}
+			e.Data = h
+		case consensus.EntryConfChange:
+			e.Data = vf.Bytes("ccData", 3)
+			ccs[i] = &raftpb.ConfChange{ID: 0, Type: raftpb.ConfChangeAddNode}
+		}
+		ents[i] = e
+	}
+	if L > 0 {
+		if err := cdb.WriteRaftEntry(ents, blocks, ccs); err != nil {
+			panic(err)
+		}
+	}
+	id := &consensus.RaftIdentity{ClusterID: vf.U64("cluster"), ID: vf.U64("id"), Name: "n1", PeerID: "p1"}
+	hs := &raftpb.HardState{Term: vf.U64("hsTerm"), Vote: vf.U64("hsVote"), Commit: vf.U64("hsCommit")}
+	cdb.WriteIdentity(id)
+	cdb.WriteHardState(hs)
+
+	wal := NewWalDB(chain.VFChainDBOn(kv.Reopen())) // restart
+	var snap *raftpb.Snapshot
+	snapTerm := uint64(0)
+	if snapIdx > 0 {
+		snapTerm = vf.U64("snapTerm")
+		snap = &raftpb.Snapshot{Metadata: raftpb.SnapshotMetadata{Index: uint64(snapIdx), Term: snapTerm}}
+	}
+	lowTerm := false
+	for i := snapIdx; i < L; i++ {
+		lowTerm = vf.Or(lowTerm, ents[i].Term < snapTerm)
+	}
+	gid, gst, out, err := wal.ReadAll(snap)
+	vf.Reach("C16.c")
+	vf.Assert((err != nil) == lowTerm, "C16.c")
+	if err != nil {
+		vf.Assert(err == ErrWalEntryTooLowTerm, "C16.c")
+		vf.Assert(out == nil, "C16.c")
+		return
+	}
+	vf.Assert(vf.And(gid != nil, gst != nil), "C16.c.state")
+	if gid != nil && gst != nil {
+		vf.Assert(vf.And(vf.And(gid.ClusterID == id.ClusterID, gid.ID == id.ID), vf.And(gid.Name == id.Name, gid.PeerID == id.PeerID)), "C16.c.state")
+		vf.Assert(vf.And(gst.Term == hs.Term, vf.And(gst.Vote == hs.Vote, gst.Commit == hs.Commit)), "C16.c.state")
+	}
+	vf.Assert(len(out) == L-snapIdx, "C16.c.entries")
+	for k := 0; k < len(out) && k < L-snapIdx; k++ {
+		e := ents[snapIdx+k]
+		vf.Assert(vf.And(out[k].Index == e.Index, out[k].Term == e.Term), "C16.c.entries")
+		switch e.Type {
+		case consensus.EntryEmpty:
+			vf.Assert(vf.And(out[k].Type == raftpb.EntryNormal, len(out[k].Data) == 0), "C16.c.entries")
+		case consensus.EntryConfChange:
+			vf.Assert(vf.And(out[k].Type == raftpb.EntryConfChange, bytes.Equal(out[k].Data, e.Data)), "C16.c.entries")
+		case consensus.EntryBlock:
+			vf.Assert(out[k].Type == raftpb.EntryNormal, "C16.c.entries")
+			blk, err := unmarshalEntryData(out[k].Data)
+			vf.Assert(err == nil, "C16.c.block")
+			if err == nil {
+				b0 := blocks[snapIdx+k]
+				vf.Assert(vf.And(bytes.Equal(blk.Hash, b0.Hash), blk.Header.BlockNo == b0.Header.BlockNo), "C16.c.block")
+			}
+		}
+	}
+	vf.Observe("n", len(out))
 }
